@@ -356,13 +356,28 @@ def rule_v3(ctx):
         return res
     lps = [lp for lp in body.loops() if pb in lp["body"]]
     lp = max(lps, key=lambda l: len(l["body"]))
-    adds = [(b, o) for (b, o) in mir.add_defs(body, i) if b in lp["body"]]
-    skip = _skips(body, lp, {b for b, o in adds if is_elem(o)})
-    odd = [b for b, o in adds if not is_elem(o)]
-    if skip or odd:
-        res.bad(Finding("V3", fid, "element offset does not advance by the element size on every path", "an iteration can end without i += element size (blocks %s)" % (skip or odd), sl["sp"]))
+    # the start of the slice: a running offset (`i += element size` per iteration), or computed from the element's number
+    # (`start = n * element size` with n the item of the loop's own `0..count` iterator)
+    product = False
+    for (r0, p0) in body.trace({"l": i, "p": []}, through={}):
+        if r0[0] == "rv" and r0[1] in ("binop", "checked_binop") and r0[2] in lp["body"]:
+            rv0 = body.blocks[r0[2]]["stmts"][r0[3]]["rv"]
+            if not rv0.get("op", "").startswith("Mul"):
+                continue
+            for n_op, e_op in ((rv0["l"], rv0["r"]), (rv0["r"], rv0["l"])):
+                from_next = any(rr[0] == "call" and rr[1] in lp["body"] and mir.last_seg(rr[2] or "") == "next" and "as Some" in pp for (rr, pp) in body.trace_operand(n_op, through={}))
+                if from_next and is_elem(e_op):
+                    product = True
+    if product and len(body.defs().get(i, [])) == 1:
+        res.ok({"verdict": "binding = array[n * elem .. n * elem + elem] for the n-th iteration"})
     else:
-        res.ok({"verdict": "binding = array[i .. i + elem]; i += elem on every path"})
+        adds = [(b, o) for (b, o) in mir.add_defs(body, i) if b in lp["body"]]
+        skip = _skips(body, lp, {b for b, o in adds if is_elem(o)})
+        odd = [b for b, o in adds if not is_elem(o)]
+        if skip or odd:
+            res.bad(Finding("V3", fid, "element offset does not advance by the element size on every path", "an iteration can end without i += element size (blocks %s)" % (skip or odd), sl["sp"]))
+        else:
+            res.ok({"verdict": "binding = array[i .. i + elem]; i += elem on every path"})
     # the number of iterations is the number of elements of the array's type: counting wires instead (`while i < array.len()`)
     # never runs the body for elements without bits (`for _ in [(); 3] { c = c + x; }` left c unchanged)
     def is_count(op):
